@@ -77,6 +77,63 @@ CHECKS = {
             C_TIE + "intlog2 from the regenerated translation (tie T).",
             "Coq proofs over the integer tail of the generators + oracle sweep of all generators on regular formats",
             "DESIGN.md 3 C22"),
+    "C13": (True,
+            "21 theorems over the regenerated model of slice_sizes.py, for all integer states with slices>=1, sizes>=0, depths>=0: per-dimension "
+            "and 2-D slice partition (in order, disjoint, exists-unique cover of every coefficient), subband sizes = least-multiple padded picture "
+            "divided exactly by the per-level power of two and equal to the transform's synthesis shapes, same-dimensions flag <-> all slice sizes "
+            "equal (both directions, plus strengthened forms), slice_bytes non-negative and telescoping to floor(slices*num/den), no call raises.",
+            T_TIE + "synth_shape (what dwt/idwt produce) is tied to the real dwt() array shapes by the oracle on each run, not to the C11 model.",
+            "Coq proofs (lia/nia with Euclidean division, induction for cover/telescoping) about a model regenerated from the Python source",
+            "DESIGN.md 3 C13"),
+    "C20": (True,
+            "40 theorems over byte-level state-machine models of BitstreamWriter, BitstreamReader and the validator's reader, unbounded in values and "
+            "lengths: every primitive round-trips through both readers with exact position advance, exp-Golomb length functions (regenerated from "
+            "source) equal the bits written, out-of-range values raise and write nothing, bounded-block laws for zero and negative lengths, both readers "
+            "agree on every byte string and every read program for block lengths >= 0 (negative lengths: refutation witness + proof they are "
+            "unreachable in the validator), tell/seek laws.",
+            C_TIE + "exp_golomb length functions are tie T. record_bitstream_start/finish only by correspondence.",
+            "Coq refinement proofs on hand models + exhaustive (10-bit) and random differential runs against both real readers and the writer",
+            "DESIGN.md 3 C20"),
+    "C07": (True,
+            "15 theorems over a model of the four autofill passes, for all stream descriptions: explicit values preserved, automatic picture numbers "
+            "(count up, restart per sequence, wrap at 2^32, repeat across fragments), automatic parse offsets = true distances (next = 0 iff last unit "
+            "of a sequence), automatic major_version = least version accepted by an independent model of the validator's version rules built from the "
+            "regenerated version_constraints translation. 'Omitted fields take defaults' is a table comparison in the harness.",
+            C_TIE + "version implications are tie T. Unit byte lengths are parameters measured on the serialised bytes.",
+            "Coq proofs on a hand model of vc2_autofill + regenerated version rules; differential run through the real serialiser/deserialiser/validator",
+            "DESIGN.md 3 C07"),
+    "C28": (True,
+            "Theorems for all inputs and all enum/default tables over a step-by-step model of read_dict_list_csv and read_codec_features_csv: an Ok "
+            "result has every field in its documented domain (enums, minimums, picture_bytes iff lossy, matrix shape for the declared depths) and unique "
+            "names; the outcome is Ok or InvalidCodecFeaturesError, never another class. PARTIAL: csv.reader, str.strip/lower/split and int() are "
+            "oracles whose results the model's cells carry (tied by ~6000 differential cases per run).",
+            C_TIE + "Text-level primitives are oracles (total: value or ValueError).",
+            "Coq proofs over a control-flow model with text primitives as oracles + cell-by-cell mutation and random CSV differential run",
+            "DESIGN.md 3 C28"),
+    "C15": (True,
+            "Theorems for arbitrary data tables and level tables: every header the enumeration yields decodes to exactly the configured video parameters "
+            "and picture coding mode; all level-checked keys of a header are admitted by one table column; the default header is a member. PARTIAL: "
+            "validator acceptance beyond level keys (enum/zero/geometry/version checks) only by validating ~33k generated headers per run; one known "
+            "finding (levels 64/65 major_version).",
+            C_TIE + "Candidate base-format list and allowed-value emptiness are model inputs dumped from the live functions.",
+            "Coq proofs on a hand model of the header option enumeration and decoder + differential run through the real validator under real levels",
+            "DESIGN.md 3 C15"),
+    "C16": (True,
+            "Theorems on the encoder's level decision logic: extended-transform flag choice sound/complete/prefers False, coded ETP values describe the "
+            "transform, all decided or filtered keys admitted by the column, unsatisfiable iff no option. The property as stated is REFUTED on the "
+            "implementation for eight recorded keys (known findings; model witness for major_version); ordering pattern and slice-level keys are decided "
+            "by the oracle with synthetic single-column tables swapped in for encoder and validator.",
+            C_TIE + "Synthetic tables are swapped in-process; the model describes the repaired ETP behaviour (fix c482ac9).",
+            "Coq proofs on the decision logic + oracle over synthetic level tables; known findings keyed per constrained key",
+            "DESIGN.md 3 C16"),
+    "C27": (True,
+            "19 theorems over a model of fixeddict.py generic in key and value type: for every accepted construction and every operation history "
+            "(setitem, setdefault, update, |=, copies, pickle, removals) stored keys are a subset of the declared entries; exact rejection/retention "
+            "theorems; copies and pickle round trips are identical objects of the same class; forged pickles cannot yield undeclared keys; refutation "
+            "witness for the pinned (unfixed) |= and proof that it was the only hole.",
+            C_TIE + "CPython's dispatch of C-level dict methods to the Python overrides is runtime behaviour covered only by the differential run on all 38 library types.",
+            "Coq invariant proof by induction over operation histories + differential run after every operation on all fixeddict types",
+            "DESIGN.md 3 C27"),
 }
 
 NOT_YET = "check not built yet (work in progress; see DESIGN.md section 7 work order)"
